@@ -132,6 +132,20 @@ values per run by the correspondence op `c05.parse` against the implementation.)
 example : (schemaOf "MX").bind (fun sch => encRec "MX" sch (wireOrigin { origin := some [[101, 120], []] })
     [.n 10, .nm [[109]]] none) = some [0, 10, 1, 109, 2, 101, 120, 0] := by decide
 
+/-- "for relative and absolute names under any origin/relativization choice": a legal name over all 256 octets comes back
+from its text *unchanged* in each of the configurations of `NameCfgOk` — nothing rewrites names; an absolute name read
+with `relativize=False` under any origin; or the zone-file configuration (absolute origin `O` for parsing with
+`relativize=True`, printing against no origin or against `O` with either `relativize` value, the name relative with
+`n ++ O` legal or absolute and not below `O`).  In general `as_name` on the printed name `m` returns `nameBack env m`
+(`asName_toText`): `from_text` appends the origin to a relative `m`, then `choose_relativity` is applied — so a relative
+name read with `relativize=False` comes back derelativized, which is equal modulo the origin but not the same value. -/
+theorem name_field_any_origin (st : Style) (env : PEnv) (n : Name) (hw : WfName n) (ho : OctetsOk n)
+    (hcfg : NameCfgOk st env n) :
+    ∃ text, printField st .name (.nm n) = some text ∧ Lexes text [⟨.ident, text⟩] ∧
+      parseField env .name ⟨.ident, text⟩ = some (.nm n) := by
+  obtain ⟨t, hp, hl, hpa, _⟩ := field_name st env n (nameCfg_ok st env n hw ho hcfg)
+  exact ⟨t, hp, hl, hpa⟩
+
 /-- well-formed for text (the decidable side conditions are spelled out in `FieldOk` / `TailOk`):
 every field within its range, names legal and printed/parsed in a configuration that does not rewrite them,
 character-strings of any octets within their length limits, blobs non-empty, chunking lossless, and the
@@ -178,10 +192,21 @@ theorem provedTypes_covered :
 
 /-- non-vacuity: `MX 10 mail.example.`, `TXT "a\200" ""`, `DS 1 8 2 <32 octets>` are well-formed for text -/
 example : WfText "MX" {} {} [.n 10, .nm [[109, 97, 105, 108], [101, 120], []]] none := by
-  refine ⟨_, rfl, ⟨by simp [FieldOk, u16], ⟨⟨?_, ?_, ?_⟩, trivial⟩⟩, trivial, rfl⟩
+  refine ⟨_, rfl, ⟨by simp [FieldOk, u16], ⟨?_, trivial⟩⟩, trivial, rfl⟩
+  refine nameCfg_ok _ _ _ ?_ ?_ (Or.inl ⟨rfl, rfl, rfl⟩)
   · refine ⟨?_, ?_, ?_⟩ <;> decide
   · unfold OctetsOk; decide
-  · exact ⟨rfl, rfl, Or.inl rfl⟩
+
+/-- the zone-file configuration: `MX 10 mail` relative to the origin `ex.`, printed against that origin with either
+`relativize` value (`mail` / `mail.ex.`), parsed with `origin=ex., relativize=True` -/
+example (r : Bool) : WfText "MX" { origin := some [[101, 120], []], relativize := r }
+    { origin := some [[101, 120], []], relativize := true } [.n 10, .nm [[109, 97, 105, 108]]] none := by
+  refine ⟨_, rfl, ⟨by simp [FieldOk, u16], ⟨?_, trivial⟩⟩, trivial, rfl⟩
+  refine nameCfg_ok _ _ _ ?_ ?_ (Or.inr (Or.inr ⟨[[101, 120], []], rfl, by decide, by unfold OctetsOk; decide, rfl,
+    by decide, Or.inr rfl, Or.inl ⟨by decide, ?_⟩⟩))
+  · refine ⟨?_, ?_, ?_⟩ <;> decide
+  · unfold OctetsOk; decide
+  · refine ⟨?_, ?_, ?_⟩ <;> decide
 
 /-- `HINFO "\\200\"" ""`: a high octet and a quote in a character-string -/
 example : WfText "HINFO" {} {} [.b [200, 34], .b []] none := by
